@@ -64,8 +64,16 @@ theorem assignment_stays_in_context (n : Name) (v : CtxVal) (w : World σ) (hw :
   rw [ctxSet_clean hw]
 
 /-- Tie: the crate's global mutable state is exactly the five registries and the once-flag. -/
-theorem globals_inventory := EE.Tie.globals_inventory
+theorem globals_inventory :
+    Gen.globals.map (fun g => (g.1, g.2.1, g.2.2.1, g.2.2.2.2)) = [
+      ("descriptor.rs".toList, "DescriptorManager::new".toList, "STORE".toList, false),
+      ("function.rs".toList, "InnerFunctionManager::new".toList, "STORE".toList, false),
+      ("init.rs".toList, "init".toList, "INITED".toList, false),
+      ("operator.rs".toList, "InfixOpManager::new".toList, "STORE".toList, false),
+      ("operator.rs".toList, "PrefixOpManager::new".toList, "STORE".toList, false),
+      ("operator.rs".toList, "PostfixOpManager::new".toList, "STORE".toList, false)]
+    ∧ Gen.unsafeCount = 0 ∧ Gen.stateMacros = [] := EE.Tie.globals_inventory
 /-- Tie: no registry writer is reachable from parsing, evaluating or rendering. -/
-theorem no_writer_reachable := EE.Tie.no_writer_reachable
+theorem no_writer_reachable : ∀ n ∈ EE.Tie.reachable Gen.evalRoots, n ∉ Gen.registryWriters := EE.Tie.no_writer_reachable
 
 end EE.Props.C16
